@@ -35,6 +35,10 @@ impl Frame {
         if byte_data.len() < 26 {
             return Err(PngError::TruncatedData);
         }
+        if byte_data[4..12].chunks_exact(4).any(|dim| dim == [0; 4]) {
+            // Frame width and height must not be zero
+            return Err(PngError::InvalidData);
+        }
         Ok(Frame {
             width: read_be_u32(&byte_data[4..8]),
             height: read_be_u32(&byte_data[8..12]),
